@@ -243,36 +243,54 @@ Proof.
   intros b eb. rewrite mget_mdel. destruct (N.eqb b a); [discriminate|]. apply (ri_q _ H).
 Qed.
 
+Lemma cache_op_inv a p s : RInv s -> RInv (cache_op cfg a p s).
+Proof.
+  intros [H X]. unfold cache_op. destruct (mget a (pend s)) as [e|] eqn:E.
+  - split; [|exact X]. apply set_pend_inv; [assumption|]. intros b eb. rewrite mget_mset. destruct (N.eqb b a).
+    + intros Y. inversion Y; subst eb. destruct (ri_q _ H _ _ E) as [Q1 Q2].
+      destruct (cache_bound e p Q1) as [C1 C2]. rewrite C2. auto.
+    + apply (ri_q _ H).
+  - destruct (fresh_inv a [] [] s H) as [A B]; [cbn; lia|].
+    set (s1 := fresh cfg a [] [] s) in *. destruct (mget a (pend s1)) as [e|] eqn:E1.
+    + split; [|cbn [wh]; congruence]. apply set_pend_inv; [assumption|]. intros b eb. rewrite mget_mset. destruct (N.eqb b a).
+      * intros Y. inversion Y; subst eb. destruct (ri_q _ A _ _ E1) as [Q1 Q2].
+        destruct (cache_bound e p Q1) as [C1 C2]. rewrite C2. auto.
+      * apply (ri_q _ A).
+    + split; [assumption|congruence].
+Qed.
+
+Lemma complete_op_inv a s : RInv s -> RInv (fst (complete_op cfg a s)).
+Proof.
+  intros [H X]. unfold complete_op. destruct (mget a (pend s)) as [e|]; [|now split]. destruct (p_ready e); [|now split].
+  cbn [fst]. split; [now apply drop_inv|exact X].
+Qed.
+
+Lemma wrong_op_inv a v s : RInv s -> RInv (fst (wrong_op cfg a v s)).
+Proof.
+  intros [H X]. unfold wrong_op. destruct (mget a (pend s)) as [e|] eqn:E; [|now split]. destruct (p_ready e); [|now split].
+  cbn [fst]. destruct (fresh_inv a (filter (fun u => negb (N.eqb u v)) (p_remotes e)) (p_store e) (drop a e s)) as [A B].
+  - now apply drop_inv.
+  - apply (ri_q _ H _ _ E).
+  - split; [assumption|]. rewrite B. exact X.
+Qed.
+
 Theorem rinv_step o s : RInv s -> RInv (fst (rstep cfg o s)).
 Proof.
-  intros [H X]. destruct o; cbn [rstep].
+  intros HX. pose proof HX as [H X]. destruct o; cbn [rstep].
   - (* RStart *) destruct (mget a (pend s)); [now split|]. cbn [fst].
     destruct (fresh_inv a remotes [] s H) as [A B]; [cbn; lia|]. split; [assumption|congruence].
-  - (* RCache *) destruct (mget a (pend s)) as [e|] eqn:E; cbn [fst].
-    + split; [|exact X]. apply set_pend_inv; [assumption|]. intros b eb. rewrite mget_mset. destruct (N.eqb b a).
-      * intros Y. inversion Y; subst eb. destruct (ri_q _ H _ _ E) as [Q1 Q2].
-        destruct (cache_bound e p Q1) as [C1 C2]. rewrite C2. auto.
-      * apply (ri_q _ H).
-    + destruct (fresh_inv a [] [] s H) as [A B]; [cbn; lia|].
-      set (s1 := fresh cfg a [] [] s) in *. destruct (mget a (pend s1)) as [e|] eqn:E1; cbn [fst].
-      * split; [|cbn [wh]; congruence]. apply set_pend_inv; [assumption|]. intros b eb. rewrite mget_mset. destruct (N.eqb b a).
-        -- intros Y. inversion Y; subst eb. destruct (ri_q _ A _ _ E1) as [Q1 Q2].
-           destruct (cache_bound e p Q1) as [C1 C2]. rewrite C2. auto.
-        -- apply (ri_q _ A).
-      * split; [assumption|congruence].
+  - (* RCache *) cbn [fst]. now apply cache_op_inv.
   - (* RSetRemotes *) destruct (mget a (pend s)) as [e|] eqn:E; [|now split]. cbn [fst]. split; [|exact X].
     apply set_pend_inv; [assumption|]. intros b eb. rewrite mget_mset. destruct (N.eqb b a).
     + intros Y. inversion Y; subst eb. cbn [p_store p_counter]. apply (ri_q _ H _ _ E).
     + apply (ri_q _ H).
   - (* RTrigger *) destruct (handle_inv a true s H) as [A B]. split; [assumption|congruence].
   - (* RTick *) apply tick_inv. now split.
-  - (* RComplete *) destruct (mget a (pend s)) as [e|]; [|now split]. destruct (p_ready e); [|now split].
-    cbn [fst]. split; [now apply drop_inv|exact X].
-  - (* RWrong *) destruct (mget a (pend s)) as [e|] eqn:E; [|now split]. destruct (p_ready e); [|now split].
-    cbn [fst]. destruct (fresh_inv a (filter (fun u => negb (N.eqb u v)) (p_remotes e)) (p_store e) (drop a e s)) as [A B].
-    + now apply drop_inv.
-    + apply (ri_q _ H _ _ E).
-    + split; [assumption|]. rewrite B. exact X.
+  - (* RComplete *) now apply complete_op_inv.
+  - (* RWrong *) now apply wrong_op_inv.
+  - (* RCompleteQ *) destruct (answerable a s); [|exact HX]. apply complete_op_inv. now apply cache_op_inv.
+  - (* RWrongQ *) destruct (answerable a s); [|exact HX]. apply wrong_op_inv. now apply cache_op_inv.
+  - (* RRespQ *) cbn [fst]. now apply cache_op_inv.
 Qed.
 
 Lemma rinv_run ops : forall s, RInv s -> RInv (rrun cfg s ops).
